@@ -1,11 +1,122 @@
 """C08 - the dependency graph is exactly the declared one, and acyclic."""
 from ..core import Prop
-from ..suites_chain import ChainBuild
+from ..coqlit import cbool, clist, cnat, cpair, cstr
+from .. import pipeline as pl
+from ..suites_chain import ChainBuild, chain_oracle, cobs, CONSTRUCTION_ERRORS
+
+
+class Graphs(ChainBuild):
+    """chain construction plus required_tasks / dependent_tasks / is_task_dependent_on on random tasks"""
+    name = 'chain_graph'
+    aspects = ('tasks', 'edges')
+    in_type = '(world * (str + (str * cfgdata)) * list (nat * str * str * bool))'
+    model = ('(fun c : world * (str + (str * cfgdata)) * list (nat * str * str * bool) => '
+             'render_build_queries (build sha_key (fst (fst c)) (snd (fst c)) [] []) (snd c))')
+
+    def corpus(self):
+        out = []
+        for c in super().corpus():
+            c = dict(c)
+            c['queries'] = [dict(kind=k, a=i, b=j, inc=inc) for k in (0, 1, 2) for i, j, inc in ((0, 1, True), (1, 0, False))]
+            out.append(c)
+        return out
+
+    def gen(self, rng, tier):
+        out = []
+        for c in super().gen(rng, tier):
+            c['queries'] = [dict(kind=rng.randrange(3), a=rng.randrange(64), b=rng.randrange(64), inc=rng.random() < 0.5)
+                            for _ in range(rng.choice([2, 4, 6]))]
+            out.append(c)
+        return out
+
+    def run_impl(self, case):
+        with pl.workspace(case) as (d, mod):
+            try:
+                chain = pl.build_config(case, mod).chain()
+            except CONSTRUCTION_ERRORS as e:
+                return dict(error=type(e).__name__, text=str(e)[:200])
+            obs = pl.observe_chain(chain, with_paths=True)
+            names = list(chain.tasks)
+            canon = {n: t['canon'] for n, t in obs['tasks'].items()}
+            by_obj = {id(chain.tasks[n]): canon[n] for n in names}
+            answers = []
+            for q in case['queries']:
+                if not names:
+                    answers.append(dict(a='?', b='?', kind=q['kind'], inc=q['inc'], answer='error'))
+                    continue
+                a, b = names[q['a'] % len(names)], names[q['b'] % len(names)]
+                ta, tb = chain.tasks[a], chain.tasks[b]
+                if q['kind'] == 0:
+                    ans = sorted(by_obj[id(t)] for t in chain.dependent_tasks(ta, include_self=q['inc']))
+                elif q['kind'] == 1:
+                    ans = sorted(by_obj[id(t)] for t in chain.required_tasks(ta, include_self=q['inc']))
+                else:
+                    ans = bool(chain.is_task_dependent_on(ta, tb))
+                answers.append(dict(a=a, b=b, kind=q['kind'], inc=q['inc'], answer=ans))
+            obs['answers'] = answers
+            return obs
+
+    def encode(self, case, obs):
+        qs = clist([cpair(cnat(a['kind']), cstr(a['a']), cstr(a['b']), cbool(a['inc'])) for a in obs.get('answers', [])])
+        i = cpair(pl.cworld(case, 'M'), pl.cbase(case['base'], 'M'), qs)
+        if 'tasks' not in obs:
+            return i, cobs(obs)
+        ans = []
+        for a in obs['answers']:
+            if a['answer'] == 'error':
+                ans.append('(VStr (lit "error"))')
+            elif isinstance(a['answer'], bool):
+                ans.append(f'(VBool {cbool(a["answer"])})')
+            else:
+                ans.append('(VList ' + clist([f'(VStr {cstr(n)})' for n in a['answer']]) + ')')
+        return i, f'(VList [{cobs(obs)}; VList {clist(ans)}])'
+
+    def oracle(self, case, obs):
+        m = chain_oracle(case, obs, self.aspects)
+        if m or 'tasks' not in obs:
+            return m
+        # closures recomputed naively from the observed direct edges (object level)
+        edges = {(u, v) for u, v in (tuple(e) for e in obs['edges'])}
+        nodes = {t['canon'] for t in obs['tasks'].values()}
+
+        def reach(x, fwd=True):
+            out, todo = set(), [x]
+            while todo:
+                n = todo.pop()
+                for u, v in edges:
+                    s, t = (u, v) if fwd else (v, u)
+                    if s == n and t not in out:
+                        out.add(t)
+                        todo.append(t)
+            return out
+        canon = {n: t['canon'] for n, t in obs['tasks'].items()}
+        for a in obs['answers']:
+            if a['answer'] == 'error':
+                continue
+            x, y = canon[a['a']], canon[a['b']]
+            if a['kind'] in (0, 1):
+                want = reach(x, fwd=a['kind'] == 0) - {x}
+                if a['inc']:
+                    want = want | {x}
+                if sorted(want) != a['answer']:
+                    name = 'dependent_tasks' if a['kind'] == 0 else 'required_tasks'
+                    return f'{name}({a["a"]}, include_self={a["inc"]}) = {a["answer"]}, transitive closure of the edges gives {sorted(want)}'
+            else:
+                want = x == y or x in reach(y)
+                if want != a['answer']:
+                    return f'is_task_dependent_on({a["a"]}, {a["b"]}) = {a["answer"]}, closure gives {want}'
+        return None
 
 
 class C08(Prop):
     pid = 'C08'
-    suites = [ChainBuild()]
+    suites = [Graphs()]
+    trusted_base = ['networkx (DiGraph, ancestors, descendants, has_path, DAG test) is tied to the model\'s own proved '
+                    'closure functions by the correspondence',
+                    'import strings are resolved by the harness (import_by_string is not modelled); input patterns are '
+                    'restricted to literals and prefix.* patterns']
+    assumptions = ['a dependency cycle ends in RecursionError in parameter mode (before the acyclicity check): any '
+                   'construction error counts as "construction fails"']
 
 
 PROP = C08()
